@@ -315,6 +315,10 @@ func buildAlphabet() *alphabet {
 		return leaf(fmt.Sprintf(`Time(%q,time.Time{})`, k), k, func() slog.Value { return slog.TimeValue(time.Time{}) }, str("0001-01-01T00:00:00Z"))
 	}
 	add(zt("zt"))
+	// values of the numeric extremes INSIDE groups (group members take their own path to the encoder)
+	add(group("UG", leaf(`Uint64("u",MaxUint64)`, "u", func() slog.Value { return slog.Uint64Value(^uint64(0)) }, num("18446744073709551615")),
+		leaf(`Int64("i",MinInt64)`, "i", func() slog.Value { return slog.Int64Value(-1 << 63) }, num("-9223372036854775808"))))
+	add(group("", leaf(`Uint64("iu",MaxInt64+1)`, "iu", func() slog.Value { return slog.Uint64Value(1 << 63) }, num("9223372036854775808"))))
 	add(group("ZG", zt("at")))
 	add(leaf(`Duration("zd",0)`, "zd", func() slog.Value { return slog.DurationValue(0) }, num("0")))
 	add(group("ZS", leaf(`String("es","")`, "es", func() slog.Value { return slog.StringValue("") }, str(""))))
